@@ -205,7 +205,11 @@ class Walker:
                 ctx.violation('I1-offset-record', f'{node.uid}: delta_p {node.delta_p} != internal design offset {dp}')
             # I3 / I2
             p_max = eqa.p_max
-            if not self.power_mode and user_gain is not None:
+            if not self.power_mode and user_gain is not None and not user_variety:
+                # the type is chosen by auto-design: how far an operator gain that no permitted model can deliver is
+                # reduced is the selection's rule (judged by C10: capability, extended gain, power reduction)
+                ctx.skip('operator-gain-with-automatic-type')
+            elif not self.power_mode and user_gain is not None:
                 # total power the operator's gain would deliver: what enters the amplifier, minus its input VOA, plus gain
                 pout = pref_total + prev_dp - loss - prev_voa - in_voa + user_gain
                 exp = user_gain + min(0.0, p_max - pout)
@@ -263,6 +267,10 @@ class Walker:
                             ctx.skip('automatic-voa-on-rounding-tie-or-coarsened-step')
                             judged = False
                         else:
+                            if hv > head + 1e-9:
+                                # rounded to the step, but never above the headroom: the amplifier must not be designed
+                                # above its maximum output power (or flat-max gain) whatever the margin is
+                                hv -= vstep
                             voa_exp = max(hv - vmargin, 0.0)
                             exp_dp = exp_dp + voa_exp
                             ctx.count('i2_auto_voa_checks')
